@@ -53,7 +53,7 @@ pub mod shims {
         #[verifier::external_body]
         pub fn add_endpoint_name(&mut self, n: &str) ensures final(self).endpoints@ == old(self).endpoints@.insert(n@), final(self).x == old(self).x { unimplemented!() }
     }
-    pub struct Endpoint { pub name: String, pub x: Ghost<int> }
+    pub struct Endpoint { pub name: String, pub cmdline_roots: Ghost<Seq<&'static str>>, pub x: Ghost<int> }
     pub struct Arc<T> { pub v: T }
     pub struct RwLock<T> { pub v: T }
     pub type AccountSync = Arc<RwLock<Account>>;
@@ -92,6 +92,8 @@ pub mod cfgshim {
     pub uninterp spec fn crt_dir(a: Certificate, c: Config) -> Seq<char>;
     pub uninterp spec fn crt_renew_delay(a: Certificate, c: Config) -> Option<Duration>;
     pub uninterp spec fn crt_random_early_renew(a: Certificate, c: Config) -> Option<Duration>;
+    // the texts of a list of root certificate file names
+    pub open spec fn roots_text(r: Seq<&str>) -> Seq<Seq<char>> { r.map_values(|s: &str| s@) }
     pub uninterp spec fn crt_endpoint_name(a: Certificate, c: Config, roots: Seq<&str>) -> Option<Seq<char>>;
     pub uninterp spec fn config_of(file_name: Seq<char>) -> Config;
     #[verifier::external_body]
@@ -118,7 +120,7 @@ pub mod cfgshim {
     impl Certificate {
         #[verifier::external_body]
         pub fn get_endpoint(&self, cnf: &Config, root_certs: &[&str]) -> (r: Result<Endpoint, Error>)
-            ensures match r { Ok(e) => crt_endpoint_name(*self, *cnf, root_certs@) == Some(e.name@), Err(_) => crt_endpoint_name(*self, *cnf, root_certs@) is None } { unimplemented!() }
+            ensures match r { Ok(e) => crt_endpoint_name(*self, *cnf, root_certs@) == Some(e.name@) && roots_text(e.cmdline_roots@) == roots_text(root_certs@), Err(_) => crt_endpoint_name(*self, *cnf, root_certs@) is None } { unimplemented!() }
         #[verifier::external_body]
         pub fn get_crt_name(&self) -> (r: Result<String, Error>) ensures match r { Ok(s) => crt_name(*self) == Some(s@), Err(_) => crt_name(*self) is None } { unimplemented!() }
         #[verifier::external_body]
